@@ -25,6 +25,7 @@ CLAIMED = {
  "C18": ("§6 C18", "GeoJSON.read on an arbitrary symbolic feature collection (ragged property sets, null values, null/Point geometry, extra top-level members; json and the file layer stubbed by contract): one row per feature, a column per property key, geometry objects unchanged, other members in metadata. GeoJSON.write: the hand-assembled text (captured as a template whose json.dumps blobs are valid by contract) parses as JSON with the same features and metadata, and every member name inserted verbatim must be a valid JSON string literal for ALL names (bounded symbolic string); outside the recorded known-finding region."),
  "C13": ("§6 C13", "ListOfDicts and JSON legs end to end (one record per row, one field per column, null iff missing, back-conversion with the same names, values, missing positions and dtype) for ALL cell values; from_pandas / from_arrow as units against an arbitrary foreign column (contract stub: to_numpy() + null mask) for ALL cell values and null positions incl. the first; the real pandas / pyarrow round trip is observed through witness replay only."),
  "C19": ("§6 C19", "Routing of every dt extractor, replace (scalar and vector components), to_string/from_string and every regex function: the calendar / re functions are uninterpreted (same symbol in implementation and oracle, evaluated by Python's own datetime / re on concrete replays), so what is decided for ALL ticks, NaT positions, component values and string contents is: element i of the result is f(element i), missing exactly at NaT / '', scalar call == one-element call, .dt / .re proxies == module functions, quarter == ceil(month/3), from_string inverts to_string under the assumed strptime/strftime inverse."),
+ "C20": ("§6 C20", "The real to_string / repr / print_ code of DataFrame, GeoJSON, Vector and ListOfDicts runs on token strings: formatted numbers are placeholders of ARBITRARY display width (1..30), max_width / terminal width / max_rows are symbolic, strings come from a pool with wide, combining, multi-line, long and empty texts. Decided per path: no exception, operand unchanged, every column name and dtype label shown, min(nrow, max_rows) data rows per block, all lines of a block of equal display width (an arithmetic identity over the symbolic widths), row total stated iff rows were cut."),
  "C05": ("§6 C05", "For every pair of frames within the bounds and ALL key and payload cells, the five joins agree with a nested-loop first-match reference (missing keys never match, renamed keys, empty sides) and do not raise."),
 }
 m = {"version": 1, "setup_cmd": "./bootstrap.sh",
